@@ -333,6 +333,7 @@ func runSrv(t *testing.T, sc *SrvScenario, keep bool, res *core.Result, hooks *s
 
 		s.Go("operator", false, func() {
 			prevPath := ""
+			servedPath := p0
 			for i, o := range sc.Ops {
 				if o.SleepMs > 0 {
 					s.Sleep(time.Duration(o.SleepMs) * time.Millisecond)
@@ -363,7 +364,7 @@ func runSrv(t *testing.T, sc *SrvScenario, keep bool, res *core.Result, hooks *s
 				rec.Gen = g
 				noKey := o.Fault == "nokey"
 				var sig dnsserver.ReloadSignal
-				served := fb.VerifDBPath()
+				served := servedPath // what the harness knows was last switched to, not what the server believes
 				var perr error
 				if o.Full {
 					p := w.fresh("db")
@@ -465,6 +466,7 @@ func runSrv(t *testing.T, sc *SrvScenario, keep bool, res *core.Result, hooks *s
 				}
 				if rec.OK && o.Full {
 					prevPath = served
+					servedPath = rec.Path
 				}
 			}
 		})
